@@ -175,3 +175,20 @@ def check_motion_filter(ids, P, Rs, dist_thr, ang_thr, margin_d, margin_a):
             if may:
                 amb += 1
     return amb
+
+
+def motion_filter_reference(P, Rs, dist_thr, ang_thr, margin_d, margin_a):
+    """the kept ids by the definition; second value True if some decision was inside the ambiguity margin"""
+    steps = rm.step_lengths(P)
+    ids = [0]
+    last = 0
+    amb = False
+    for i in range(1, len(P)):
+        d = math.fsum(steps[last:i])
+        a = rm.rot_angle_between(Rs[last], Rs[i])
+        if abs(d - dist_thr) <= margin_d or abs(a - ang_thr) <= margin_a:
+            amb = True
+        if d >= dist_thr or a >= ang_thr:
+            ids.append(i)
+            last = i
+    return ids, amb
